@@ -26,7 +26,8 @@ import (
 
 // Op is one call of the program (one action of PdfWriter.tla).
 type Op struct {
-	Op  string   `json:"op"` // Alloc Put OpenStream OpenWhileOpen StreamWrite CloseStream WriteCompressed WriteCompressedBad Close CloseWhileOpen
+	Pad int      `json:"pad"` // StreamWrite: extra bytes (only once the stream has started; invisible to the model)
+	Op  string   `json:"op"` // Alloc AllocN Put OpenStream OpenWhileOpen StreamWrite CloseStream WriteCompressed WriteCompressedBad Close CloseWhileOpen
 	N   int      `json:"n"`
 	G   int      `json:"g"`
 	V   string   `json:"v"`
@@ -111,6 +112,8 @@ func ParseLabel(label string) (Op, error) {
 	unq := func(s string) string { return strings.Trim(strings.TrimSpace(s), `"`) }
 	switch op.Op {
 	case "Alloc", "OpenWhileOpen", "CloseStream", "Close", "CloseWhileOpen":
+	case "AllocN":
+		op.K, _ = strconv.Atoi(strings.TrimSpace(args))
 	case "Put":
 		f := strings.Split(args, ",")
 		op.N, _ = strconv.Atoi(strings.TrimSpace(f[0]))
@@ -318,11 +321,11 @@ func Execute(cfg Config, prog []Op, seed int64) (run Run, err error) {
 	var stmRef [2]int
 	var stmID string
 	var stmBody []byte
-	remaining := func(i int) int { // units written until the stream is closed
+	remaining := func(i int) int { // bytes written until the stream is closed
 		n := 0
 		for _, o := range prog[i+1:] {
 			if o.Op == "StreamWrite" {
-				n += o.K
+				n += 512*o.K + o.Pad
 			}
 			if o.Op == "CloseStream" {
 				break
@@ -351,6 +354,10 @@ func Execute(cfg Config, prog []Op, seed int64) (run Run, err error) {
 		switch op.Op {
 		case "Alloc":
 			w.Alloc()
+		case "AllocN":
+			for k := 0; k < op.K; k++ {
+				w.Alloc()
+			}
 		case "Put":
 			before := snapshot(pvals[op.V])
 			cerr = w.Put(pdf.NewReference(uint32(op.N), uint16(op.G)), pvals[op.V])
@@ -367,7 +374,7 @@ func Execute(cfg Config, prog []Op, seed int64) (run Run, err error) {
 			d := shared.ToPDF(sdict[op.V]).(pdf.Dict)
 			// a caller-supplied /Length counts the bytes as they appear in the
 			// file: AES adds a 16-byte IV and PKCS#7 padding
-			inFile := 512 * remaining(i)
+			inFile := remaining(i)
 			if cfg.Enc != "none" && cfg.Version >= "1.6" {
 				inFile = 16 + (inFile/16+1)*16
 			}
@@ -395,7 +402,7 @@ func Execute(cfg Config, prog []Op, seed int64) (run Run, err error) {
 				return run, errors.New("OpenStream while a stream is open succeeded")
 			}
 		case "StreamWrite":
-			data := chunk(r, 512*op.K)
+			data := chunk(r, 512*op.K+op.Pad)
 			keep := append([]byte(nil), data...)
 			_, cerr = stm.Write(data)
 			op.ArgsOK = bytes.Equal(data, keep)
@@ -571,4 +578,37 @@ func readStream(rd *pdf.Reader, s *pdf.Stream) ([]byte, error) {
 	}
 	defer rc.Close()
 	return io.ReadAll(rc)
+}
+
+// ExecuteGiant writes n small objects with one WriteCompressed call.
+func ExecuteGiant(cfg Config, n int) (Run, error) {
+	run := Run{Cfg: cfg, ObjStm: cfg.ObjStm(), Seekable: cfg.Seekable, Written: map[[2]int]Written{}, Reads: []Read{}}
+	version, _ := pdf.ParseVersion(cfg.Version)
+	sink := &memSink{}
+	w, err := pdf.NewWriter(nonSeekable{sink}, version, nil)
+	if err != nil {
+		return run, err
+	}
+	refs := make([]pdf.Reference, n)
+	objs := make([]pdf.Object, n)
+	for i := range refs {
+		refs[i] = w.Alloc()
+		v := obj.Array{obj.Int(i), obj.Name("G")}
+		objs[i] = shared.ToPDF(v)
+		run.Written[[2]int{int(refs[i].Number()), 0}] = Written{ID: "g", Value: v}
+	}
+	if err := w.WriteCompressed(refs, objs...); err != nil {
+		return run, err
+	}
+	pref := w.Alloc()
+	if err := w.Put(pref, pagesDict); err != nil {
+		return run, err
+	}
+	w.GetMeta().Catalog.Pages = pref
+	if err := w.Close(); err != nil {
+		return run, err
+	}
+	run.Closed = true
+	run.Data = sink.Bytes()
+	return run, nil
 }
